@@ -311,7 +311,7 @@ theorem inv12_nm_step (a : Invs s) (a' : Invs s') (tl : StepTL s s' t) (h : Inv1
 
 /-- The induction step of `Inv12` for every event of a thread that is not a client data access. -/
 theorem inv12_of_tl (a : Invs s) (a' : Invs s') (tl : StepTL s s' t) (h : Inv12 s) : Inv12 s' :=
-  ⟨inv12_ww_step a a' tl h, inv12_wws_step a a' tl h, inv12_lw_step tl h, inv12_mtw_step a tl h, inv12_ok_step tl h,
+  ⟨inv12_ww_step a a' tl h, inv12_wws_step a a' tl h, inv12_lw_step tl h, inv12_mtw_step a tl h, inv12_mtlw_step a tl h, inv12_ok_step tl h,
    inv12_rcn_step a tl h, inv12_nm_step a a' tl h⟩
 
 end step
